@@ -66,6 +66,23 @@ def oracle(inp):
 
 def cases(tier, rng):
     hexk = lambda n: bytes(rng.getrandbits(8) for _ in range(n)).hex()
+    for m in (1, 2, 3, 4, 5):
+        for _ in range(6):
+            yield {'kind': 'zmk', 'parts': [hexk(16) for _ in range(m)]}
+    # components whose XOR starts with zero bytes: a component given twice (k,k), shared leading bytes, a zero first half
+    for _ in range(3):
+        k1, k2 = hexk(16), hexk(16)
+        yield {'kind': 'zmk', 'parts': [k1, k1]}
+        yield {'kind': 'zmk', 'parts': [k1, k1[:2] + k2[2:]]}
+        yield {'kind': 'zmk', 'parts': [k1, k1[:6] + k2[6:], hexk(16), hexk(16)[:0] + '00' * 3 + k2[6:]][:3]}
+        yield {'kind': 'zmk', 'parts': [k1, k1[:16] + k2[16:]]}
+        yield {'kind': 'zmk', 'parts': [k1, k2[:31] + k1[31:]]}
+        yield {'kind': 'zmk', 'parts': ['00' * 16]}
+        yield {'kind': 'zmk', 'parts': ['00' * 15 + '01', k1]}
+    for n in (8, 16, 24):
+        for _ in range(5):
+            yield {'kind': 'kcv', 'key': hexk(n)}
+
     need = {0: 2, 1: 10, 2: 6, 3: 3, 4: 1}
     tries = 0
     # keys such that the second scan supplies 0..4 digits (several per class: which ciphertext positions are A-F matters)
@@ -84,22 +101,6 @@ def cases(tier, rng):
     for _ in range(300 if tier == 'quick' else 5000):
         yield {'kind': 'pvv', 'pin': ''.join(rng.choice('0123456789') for _ in range(rng.randint(4, 12))),
                'pan': ''.join(rng.choice('0123456789') for _ in range(rng.randint(13, 19))), 'idx': rng.randint(0, 9), 'key': hexk(rng.choice([8, 16, 24]))}
-    for m in (1, 2, 3, 4, 5):
-        for _ in range(6):
-            yield {'kind': 'zmk', 'parts': [hexk(16) for _ in range(m)]}
-    # components whose XOR starts with zero bytes: a component given twice (k,k), shared leading bytes, a zero first half
-    for _ in range(3):
-        k1, k2 = hexk(16), hexk(16)
-        yield {'kind': 'zmk', 'parts': [k1, k1]}
-        yield {'kind': 'zmk', 'parts': [k1, k1[:2] + k2[2:]]}
-        yield {'kind': 'zmk', 'parts': [k1, k1[:6] + k2[6:], hexk(16), hexk(16)[:0] + '00' * 3 + k2[6:]][:3]}
-        yield {'kind': 'zmk', 'parts': [k1, k1[:16] + k2[16:]]}
-        yield {'kind': 'zmk', 'parts': [k1, k2[:31] + k1[31:]]}
-        yield {'kind': 'zmk', 'parts': ['00' * 16]}
-        yield {'kind': 'zmk', 'parts': ['00' * 15 + '01', k1]}
-    for n in (8, 16, 24):
-        for _ in range(5):
-            yield {'kind': 'kcv', 'key': hexk(n)}
 
 
 if __name__ == '__main__':
